@@ -5,7 +5,9 @@ package session
 import (
 	"net"
 
+	"tunnox-core/internal/packet"
 	"tunnox-core/internal/protocol/session/tunnel"
+	"tunnox-core/internal/stream"
 )
 
 // Export shims for the verification harness (injected by -overlay; never committed to the repo).
@@ -54,4 +56,15 @@ func (s *SessionManager) VerifStartBridgeCC(tunnelID, mappingID string, src net.
 	s.bridgeLock.Unlock()
 	go s.runBridgeLifecycle(tunnelID, bridge)
 	return bridge
+}
+
+// VerifStartSourceBridgeStream runs the real startSourceBridge (what handleTunnelOpen calls for the source end).
+func (s *SessionManager) VerifStartSourceBridgeStream(tunnelID, mappingID string, src net.Conn, srcStream stream.PackageStreamer) error {
+	return s.startSourceBridge(&packet.TunnelOpenRequest{TunnelID: tunnelID, MappingID: mappingID}, src, srcStream)
+}
+
+func (s *SessionManager) VerifGetBridge(tunnelID string) *TunnelBridge {
+	s.bridgeLock.RLock()
+	defer s.bridgeLock.RUnlock()
+	return s.tunnelBridges[tunnelID]
 }
